@@ -1,6 +1,7 @@
 #!/bin/sh
-# tools/seeded_alt.sh [parallelism] — every seeded change of seeded/EXPECT.txt against its expected checks, each in its
-# own scratch worktree of /repo (VERIF_REPO self-test mode; /repo itself is not touched). One line per (change, check).
+# tools/seeded_alt.sh [parallelism] [skip-file] — every seeded change of seeded/EXPECT.txt against its expected checks, each
+# in its own scratch worktree of /repo (VERIF_REPO self-test mode; /repo itself is not touched). One line per
+# (change, check). Names listed in skip-file are skipped.
 cd /verif
-n=${1:-2}
-grep -v '^#' seeded/EXPECT.txt | grep . | xargs -P $n -L 1 sh -c 'name=$0; tools/seedtest_one.sh /verif/seeded/$name/patch.diff "$@" 2>&1 | sed "s/^/$name /"'
+n=${1:-2}; skip=${2:-/dev/null}
+grep -v '^#' seeded/EXPECT.txt | grep . | grep -v -w -F -f $skip | xargs -P $n -L 1 sh -c 'name=$0; tools/seedtest_one.sh /verif/seeded/$name/patch.diff "$@" 2>&1 | sed "s/^/$name /"'
